@@ -110,3 +110,9 @@ Example C08_bytes_example :
   select_w (firstn 60 (enc doc)) p MAll [] = Err EOther.
 Proof. vm_compute. repeat split; reflexivity. Qed.
 Print Assumptions C08_bytes_example.
+
+(* the public functions of the walker model and of the view-level model agree on encodings *)
+Theorem C08_bytes_public_is_view : forall md v ps buf, wfb v = true -> top_ok v ->
+  get_by_path_gen_w md (enc v) ps buf = Dispatch.get_by_path_gen md (enc v) ps buf.
+Proof. exact get_by_path_gen_w_m. Qed.
+Print Assumptions C08_bytes_public_is_view.
